@@ -22,6 +22,9 @@ Modelling decisions
   2*n2 + 4*n4 = sum of tile values (conservation), n2 + n4 = T+1  =>  n4 = S/2 - (T+1) and
   objective = sum_tiles (e-1)*2**e - 4*n4.  `potential` is the same formula on any state, so every
   legal edge is also checked for reward == potential(s2) - potential(s).
+* C07: invariants of a continuing state: exponents >= 0, at least one tile, score >= 0, some move
+  changes the board; conservation: tile-value sum +2/+4 (the spawned tile) on a legal move, +0 on
+  an ignored one, and tile count = old - merges + 1.
 * State fields compared by C09: board (up to the admissible new tile), score, step_count,
   action_mask (cached copy of the legal set of the new board).  `key` is not modelled.
 * extras["highest_tile"] is not part of the documented observation and is not compared.
